@@ -1822,9 +1822,18 @@ class SQLModel:
                 )
         # TODO: put common sub-expression control object here and pass into converters
         temp_id_source = [0]
-        # generated step names end in a number: start above every number a table name ends in,
-        # so no generated name (a common table expression in WITH form) can shadow a table
-        for table_name in ops.get_tables().keys():
+        # generated step names end in a number: start above every number a table name (or the name of
+        # a user supplied SQL step) ends in, so no generated name (a common table expression in WITH
+        # form) can shadow one of them
+        user_names = list(ops.get_tables().keys())
+        visit_stack = [ops]
+        while len(visit_stack) > 0:
+            cursor = visit_stack.pop()
+            view_name = getattr(cursor, "view_name", None)
+            if isinstance(view_name, str):
+                user_names.append(view_name)
+            visit_stack.extend(cursor.sources)
+        for table_name in user_names:
             trailing_number = re.search(r"_([0-9]+)$", table_name)
             if trailing_number is not None:
                 temp_id_source[0] = max(
